@@ -127,35 +127,9 @@ def run(ctx, out):
                     add(s, body, exp, "foreign")
     # --- the same faults one to three nesting levels down: inside a struct held in a tagged (optional) field of the enclosing type.
     # The error of the nested decoder must surface; the enclosing field must not silently read as absent.
-    def tagged_suffix(t):
-        fs = t["fields"]
-        ft = next((i for i, f in enumerate(fs) if f["tag"] is not None), None)
-        return ft is not None and all(f["tag"] is not None for f in fs[ft:])
-
-    def inner_struct(f):
-        ty = f["ty"]["t"] if f["ty"]["k"] == "opt" else f["ty"]
-        return layout["by_name"][ty["name"]] if ty["k"] == "struct" else None
-
-    def sites(t, v, depth):
-        """paths [(struct, field, value of that struct)] to nested structs reachable through tagged fields that are present"""
-        for f in t["fields"]:
-            u = inner_struct(f)
-            if u is None or f["tag"] is None or v[f["name"]] is None:
-                continue
-            yield [(t, f, v)], u, v[f["name"]]
-            if depth > 1:
-                for path, w, wv in sites(u, v[f["name"]], depth - 1):
-                    yield [(t, f, v)] + path, w, wv
-
-    def wrap(path, inner_body):
-        b = inner_body
-        for t, f, v in reversed(path):
-            try:
-                fb = R.tag_bytes(f["tag"]) + R.length_prefix(f["length"], b) + b
-                b = b"".join(fb if g is f else R.field_bytes(layout, g, g["ty"], v[g["name"]]) for g in t["fields"])
-            except R.NotRepresentable:
-                return None
-        return b
+    tagged_suffix = S.tagged_suffix
+    sites = lambda t, v, depth: S.sites(layout, t, v, depth)
+    wrap = lambda path, inner_body: S.wrap(layout, path, inner_body)
 
     n_nested = 0
     for s in structs:
@@ -167,13 +141,19 @@ def run(ctx, out):
             for path, u, uv in sites(s, v, 3):
                 if not tagged_suffix(u):
                     continue
-                fs = u["fields"]
-                ft = next(i for i, f in enumerate(fs) if f["tag"] is not None)
-                upos = b"".join(R.field_bytes(layout, f, f["ty"], uv[f["name"]]) for f in fs[:ft])
-                groups = [(f, R.field_bytes(layout, f, f["ty"], uv[f["name"]])) for f in fs[ft:]]
-                groups = [(f, gb) for f, gb in groups if gb]
+                if any(f["tag"] is None and f["ty"]["k"] == "opt" and uv[f["name"]] is None for f in u["fields"]):
+                    continue        # an absent positional optional is canonical only w.r.t. what follows it
+                upos, groups = S.groups_of(layout, u, uv)
                 n = len(groups)
                 muts = []
+                # the groups of the nested container in another order (every group in turn first; reversed; a random order)
+                if n >= 2 and V.fits(layout, s, v) is not None:
+                    canon_full = frame(s, R.body(layout, s, v))
+                    okl = f"ok {V.show(layout, {'k': 'struct', 'name': s['name']}, v)} rem=- reenc={C.hexs(canon_full)}"
+                    orders = [list(range(k, n)) + list(range(k)) for k in range(1, n)] + [list(reversed(range(n))), rng.sample(range(n), n)]
+                    for o in orders:
+                        if o != list(range(n)):
+                            muts.append((upos + b"".join(groups[i][1] for i in o), okl, "nested-perm"))
                 for i, (f, gb) in enumerate(groups):
                     for j in range(n + 1):
                         if not (f["ty"]["k"] == "vec" and j in (i, i + 1)):
@@ -186,11 +166,45 @@ def run(ctx, out):
                         seq = [x[1] for i, x in enumerate(groups) if i not in sub]
                         miss = sorted(groups[i][0]["tag"] for i in sub)
                         muts.append((upos + b"".join(seq), "err missing:" + ",".join(map(str, miss)), "nested-missing"))
-                for mb, exp, kd in (muts if len(muts) <= 12 else rng.sample(muts, 12)):
+                for mb, exp, kd in (muts if len(muts) <= 16 else rng.sample(muts, 16)):
                     body = wrap(path, mb)
                     if body is not None:
                         add(s, body, exp, kd)
                         n_nested += 1
+    # --- the date-time container (tag 34: date 1F0E + time 1F0F, decoded by hand-written code, not by the derive macro): every sequence
+    # of up to 4 elements over {date, time, another date, another time, unknown tag 1F10, unknown tag 45}
+    rp = layout["by_name"].get("packets::tlv::ReceiptPrintoutCompletion")
+    if rp is not None:
+        el = {"D": bytes.fromhex("1f0e0420230405"), "T": bytes.fromhex("1f0f03123456"), "d": bytes.fromhex("1f0e0419991231"), "t": bytes.fromhex("1f0f03000000"),
+              "F": bytes.fromhex("1f1003123456"), "f": bytes.fromhex("450100")}
+        val = {"D": 20230405, "d": 19991231, "T": 123456, "t": 0}
+        for n in range(0, 5):
+            for seq in itertools.product("DTdtFf", repeat=n):
+                body = b"".join(el[c] for c in seq)
+                date = time = None
+                exp = None
+                rest = b""
+                for i, c in enumerate(seq):
+                    if c in "Ff":
+                        rest = b"".join(el[x] for x in seq[i:])
+                        break
+                    if c in "Dd":
+                        if date is not None:
+                            exp = "err duplicateTag:7950"; break
+                        date = val[c]
+                    else:
+                        if time is not None:
+                            exp = "err duplicateTag:7951"; break
+                        time = val[c]
+                if exp is None:
+                    if date is None or time is None:
+                        exp = "err incomplete"
+                    else:
+                        canon = b"\x34\x0d" + R.tag_bytes(0x1f0e) + b"\x04" + R.bcd(date).rjust(4, b"\0") + R.tag_bytes(0x1f0f) + b"\x03" + R.bcd(time).rjust(3, b"\0")
+                        exp = f"ok {{terminal_id=none device_information=none date_time=(some dt:{date}:{time})}} rem={C.hexs(rest)} reenc={C.hexs(canon)}"
+                ops.append(f"dec {rp['name']} {C.hexs(bytes([0x34]) + R.ber_len(len(body)) + body)}")
+                want.append(exp)
+                kinds.append("date-time-container")
     impl, model = ctx.pair(ops)
     out.compare("dec(permuted/duplicated/pruned/spliced)", ops, impl, model)
     out.evaluations = len(ops)
@@ -202,10 +216,12 @@ def run(ctx, out):
             out.oracle_failures.append({"op": o, "observed": "…" + r[max(0, i - 80):i + 160], "expected": "…" + w[max(0, i - 80):i + 160], "key": o[:160],
                                         "what": {"duplicate": "a tag occurring twice is not rejected as a duplicate naming that tag",
                                                  "missing": "absent mandatory tagged fields are not all named (sorted) in the error",
+                                                 "date-time-container": "date-time container: date and time in either order are not accepted / a repeated or absent element is not reported / an unknown element changes the decoded value",
+                                                 "nested-perm": "the tagged fields of a nested container in a different order do not decode to the same value",
                                                  "nested-duplicate": "a tag occurring twice inside a nested container is not rejected as a duplicate naming that tag",
                                                  "nested-missing": "mandatory tagged fields absent from a nested container are not reported (sorted) in the error",
                                                  "foreign": "an unknown tag disturbs fields already decoded / is not handed back with the bytes following it"}.get(kd, "tagged fields in a different order do not decode to the same value")})
     out.rule = (f"canonical values of the {len(structs)} types with tagged fields ({per} each): all permutations of the encoded tagged-field groups up to {max_perm} present groups (24 sampled above / after the 6th value), "
-                "a duplicate of every group at every non-adjacent position, every non-empty subset of mandatory groups removed, a foreign tag (00 and a random unknown number, each bare and followed by random bytes) spliced in before every group; duplicates and removed mandatory groups also inside containers one to three nesting levels down (reached through present tagged fields). "
-                "Expected outcomes computed from the value alone; implementation = model = expectation. non-trivial = distinct inputs")
+                "a duplicate of every group at every non-adjacent position, every non-empty subset of mandatory groups removed, a foreign tag (00 and a random unknown number, each bare and followed by random bytes) spliced in before every group; other orders, duplicates and removed mandatory groups also inside containers one to three nesting levels down (reached through present tagged fields). "
+                "The hand-written date-time container (tag 34): all 1 555 sequences of up to 4 elements over {date, time, second date, second time, two unknown tags}. Expected outcomes computed from the value alone; implementation = model = expectation. non-trivial = distinct inputs")
     out.samples = [ops[0][:200], {"op": ops[len(ops)//2][:160], "impl": impl[len(ops)//2][:200], "kind": kinds[len(ops)//2]}]
